@@ -97,6 +97,15 @@ def regen(ctx):
     c06.regen(ctx)
 
 
+CUE_ENVELOPE_DOCS = [
+    'name: string\ncount?: int64\n',
+    '#Target: {expr: string, hide?: bool}\n#Query: {targets: [...#Target]}\n',
+    '#Target: {expr: string}\nquery: #Target\nlimit: int64 | *10\n',
+    '#A: {b?: #B}\n#B: {a?: #A, kind: "x" | "y"}\n',
+    '',
+]
+
+
 def run(ctx, verdict, replay=None, model_ok=True):
     rng = ctx.rng
     thorough = ctx.tier == "thorough"
@@ -124,6 +133,12 @@ def run(ctx, verdict, replay=None, model_ok=True):
                          ("cue", "testdata/simplecue/*/schema.cue")):
             for p in sorted(glob.glob(os.path.join(core.REPO, pat))):
                 parse_jobs.append({"format": fmt, "path": p, "pkg": os.path.basename(os.path.dirname(p)).replace("-", "_")})
+        # CUE with a forced envelope (config `forced_envelope`): the entry point must name an object that exists,
+        # whatever the root value holds (regular fields, only definitions, both, nothing)
+        for k, text in enumerate(CUE_ENVELOPE_DOCS):
+            for env in ("Dataquery", "spec"):
+                parse_jobs.append({"format": "cue", "text": text, "pkg": "envtest%d" % k, "envelope": env})
+            parse_jobs.append({"format": "cue", "text": text, "pkg": "envtest%d" % k})
         try:
             from gen import srcgen_bridge   # rendered construct-grammar schemas (optional module)
             parse_jobs += srcgen_bridge.parse_jobs(rng, 40 if not thorough else 600)
